@@ -56,6 +56,15 @@ func ParsePem(data []byte) PemFile {
 			p.HashOK = isB64(p.HashText)
 			rest = rest[nl+1:]
 		}
+	} else if i := bytes.Index(rest, []byte(HashPrefix)); i >= 0 && len(bytes.TrimLeft(rest[:i], "\xef\xbb\xbf \t\r\n")) == 0 {
+		// the file was saved again by an editor: a byte order mark, blanks or empty lines in front of the marker - it still is the
+		// first thing in the file and the file still "carries the configuration hash"
+		if nl := bytes.IndexByte(rest[i:], '\n'); nl >= 0 {
+			p.HasHash = true
+			p.HashText = string(bytes.TrimRight(rest[i+len(HashPrefix):i+nl], "\r"))
+			p.HashOK = isB64(p.HashText)
+			rest = rest[i+nl+1:]
+		}
 	}
 	for {
 		b, r := pem.Decode(rest)
